@@ -410,6 +410,13 @@ impl Check for C06 {
                             fault: f,
                         }]);
                     }
+                    // the stream reader of `format` fails with EIO after k bytes
+                    for _ in 0..3 {
+                        faults.push(vec![FaultOp::Read {
+                            path: path.clone(),
+                            fault: Fault::EioAfter(rng.usize(bytes.len().max(1))),
+                        }]);
+                    }
                     for _ in 0..4 {
                         faults.push(vec![FaultOp::Flip {
                             path: path.clone(),
